@@ -18,6 +18,9 @@ CORPUS = [
     # F10: the inserted operator is captured by / captures a neighbouring operator
     "x OR y z", "a OR b c AND d e", "a OR b c", "x OR y (z)", "a AND b -c", "a OR b +c", "a AND b TO", "f:(x OR y z)",
     "(x OR y z) w", "NOT a OR b c",
+    # groups inside groups: which "level" the Lucene-like mode remembers the last operator for
+    "(x OR (a OR b c))", "x OR (a OR b c)", "f:(x OR (a OR b c))", "(x AND (a b))", "(x OR (a b))", "((a OR b) c OR (d e))",
+    "x OR (y (a OR b c))", "NOT (x OR (a b))",
     # harmless neighbours of F10
     "a AND b c", "(x OR y) z", "a OR b -c", "x y OR z", "a b c", "a b", "a", "x AND y z AND w", "a OR b OR c d",
     # F10b: operands that touch: no blank is added AFTER the left operand
